@@ -11,7 +11,7 @@ RULE = ("the real rdpgw binary started with 14 mechanism subsets (two spell the 
         "base64, credentials without colon, wrong / unknown / correct credentials, a user name containing ':', backend failure, "
         "several headers in both orders, a Basic credential whose base64 text contains NTLM, NTLM type-1 only, full NTLM and "
         "Negotiate exchanges (right, wrong, unknown), type-3 without type-1 and type-3 answering another connection's challenge; "
-        "a liveness probe after each subset. distinct = distinct (subset, method, headers); non-trivial = requests carrying an "
+        "for the Basic-only configurations: tunnels opened as users 1, DOM\\1 and 9@corp asking for the host entries 127.0.0.<name>:3389 of the confirmed name and of its stripped forms (the policy's verdict shows which name the tunnel runs under); a liveness probe after each subset. distinct = distinct (subset, method, headers); non-trivial = requests carrying an "
         "Authorization header")
 MODELLED = ("main()'s route table on the gateway prefix, web.NoAuthz/AuthMux, BasicAuth and NTLMAuth middlewares "
             "(Model/HttpAuth.v); gorilla/mux matching is modelled for these literal patterns (unanchored, any header value), "
@@ -23,6 +23,8 @@ ASSUMPTIONS = ["known finding route-shadowing: valid Basic credentials whose tex
 
 
 def nontrivial(c):
+    if c.kind == "authuser":
+        return True
     return c.fields[2] != "none"
 
 
